@@ -8,10 +8,11 @@ they were recorded (Ctx.model_input), the `t ...` / `st ...` lines are compared 
 
 The oracle below is evaluated on the implementation's own output only (never the model).
 
-Usage rule (TcpServer.cc's own "FIXME: unsafe"): the server must not be destroyed while the close of one of its
-connections is in flight.  `usage_violation()` decides that on the case TEXT alone (between the last close cause and the
-op that destroys the server every loop has been iterated often enough); cases outside the rule are only produced by
-`gen_case(rng, race=True)` and are not judged.
+Usage: since /repo c11cd6c (close callback = removeConnectionGuarded with a life token; ~Channel does not touch its loop)
+the server may be destroyed while the close of one of its connections is in flight, and a user's reference may be dropped
+after the connection's loop is gone: `gen_case(rng, race=True)` (the default) produces such schedules and they are judged
+like all others.  The rule of the older code (TcpServer.cc's "FIXME: unsafe") is still available as
+`usage_violation(lines, blocks, strict=True)`; `close_in_flight()` is used for the histograms only.
 """
 import glob
 import os
@@ -53,9 +54,13 @@ def drain_rounds(npeers):
     return npeers + 4
 
 
-def gen_case(rng, race=False):
-    """-> list of op lines.  race=True: also schedules outside the documented usage (server destroyed while a close is in
-    flight, references dropped after their loop is gone); OFF by default."""
+def gen_case(rng, race=True, strand=False):
+    """-> list of op lines.  race=True (default): in about half of the cases the server is destroyed without waiting for
+    the closes in flight, and user references are dropped at any time (also after their loop is gone).
+    strand=False (default): with L=0 the base loop is always parked before its poll when `quit` is given, so that the
+    functors a close queues for the connection's own (= the base) loop are not queued from inside the drain at the exit
+    of loop() - they would be stranded there (known finding, corpus/owner/strand-L0-forceClose-quit.case.disabled)."""
+    race = race and rng.random() < 0.55
     L = _pick(rng, [(0, 2), (1, 2), (2, 5), (3, 2)])
     lines = ["server %d %d" % (L, 1 if rng.random() < 0.3 else 0)]
     maxpeers = rng.randint(1, 6)
@@ -156,6 +161,11 @@ def gen_case(rng, race=False):
             lines.append("drop %d" % c)
             holds[c] -= 1
 
+    def quit_():
+        if L == 0 and not strand:
+            lines.append("iter 0")
+        lines.append("quit")
+
     def drop_all():
         for c in sorted(holds):
             while holds[c]:
@@ -181,8 +191,22 @@ def gen_case(rng, race=False):
         drain()
         if not keep_holds:
             drop_all()      # a reference that outlived everything else: the destructor runs on the controller thread
+    elif rng.random() < 0.5:
+        # a few rounds only: some closes have got half way
+        for _ in range(rng.randint(1, 3)):
+            for l in rng.sample(range(L + 1), rng.randint(1, L + 1)):
+                lines.append("iter %d" % l)
 
-    ending = _pick(rng, [("inloop", 4), ("quit", 3), ("drained", 3)])
+    ending = _pick(rng, [("inloop", 6), ("quit", 3), ("drained", 2)] if race else [("inloop", 4), ("quit", 3), ("drained", 3)])
+    if race and rng.random() < 0.6:
+        # closes the server side has not even noticed, or has handled half way, when the server goes
+        for c in rng.sample(uncaused(), min(len(uncaused()), rng.randint(1, 3))):
+            how = rng.choice(["fin", "rst", "forceClose"]) if peers[c]["open"] else "forceClose"
+            lines.append("%s %d" % (how, c))
+            peers[c]["cause"] = True
+            peers[c]["open"] = peers[c]["open"] and how != "rst"
+            for l in [loop_of(c), 0, loop_of(c)][:rng.choice([0, 0, 1, 1, 2, 3])]:
+                lines.append("%s %d" % (rng.choice(["iter", "iter", "step"]), l))
     if ending in ("inloop", "quit") and not race and rng.random() < 0.35:
         # a close that has got as far as DOWN (removeConnectionInLoop / connectDestroyed possibly still queued) when
         # the server is destroyed: every loop is parked before its poll and nothing is unread here, so the first
@@ -235,19 +259,26 @@ def gen_case(rng, race=False):
             for _ in range(rng.randint(1, 5)):
                 lines.append("step 0")
             lines.append("iter 0")
-        if rng.random() < 0.5:
+        if rng.random() < (0.85 if race else 0.5):
+            # the base loop keeps running after the server is gone: what was in flight arrives now
             for l in range(L + 1):
                 lines.append("iter %d" % l)
+            if race:
+                lines.append("iter 0")
         if rng.random() < 0.3:
             lines.append("connect")      # refused: nobody listens any more
             lines.append("iter 0")
+        if race and rng.random() < 0.4 and live_peers():
+            # a close cause between postDestroy and the iteration that runs it
+            p = rng.choice(live_peers())
+            lines.insert(len(lines) - lines[::-1].index("postDestroy"), rng.choice(["fin %d", "forceClose %d"]) % p)
         if keep_holds and not race:
             drop_all()
-        lines.append("quit")
+        quit_()
     elif ending == "quit":
         if keep_holds and not race:
             drop_all()
-        lines.append("quit")
+        quit_()
     else:
         for c in uncaused():
             how = rng.choice(["fin", "rst", "forceClose"]) if peers[c]["open"] else "forceClose"
@@ -259,7 +290,7 @@ def gen_case(rng, race=False):
             drain()
             if keep_holds:
                 drop_all()
-        lines.append("quit")
+        quit_()
     if race:
         if rng.random() < 0.5:
             drop_all()
@@ -327,10 +358,20 @@ def _trace_close_rule(ops, blocks):
     return None
 
 
-def usage_violation(lines, blocks=None):
-    """None, or why the schedule leaves the documented usage of TcpServer.  Decided on the case text; a schedule the
-    text rule (deliberately coarse: whole rounds of iterations) rejects is still accepted when the implementation's
-    trace (`blocks`) shows that no close was in flight when the server was destroyed."""
+def close_in_flight(lines, blocks):
+    """for the histograms: was a close in flight when the server was destroyed? (None or a description)"""
+    ops = [l.split() for l in lines if l.strip() and not l.startswith("#")]
+    return _trace_close_rule(ops, blocks) if ops and ops[0][0] == "server" else None
+
+
+def usage_violation(lines, blocks=None, strict=False):
+    """None, or why the schedule leaves the documented usage of TcpServer.  Nothing a case of this engine can express is
+    outside the usage of the current code.  strict=True: the rule of the code before /repo c11cd6c ("FIXME: unsafe":
+    no close in flight when the server is destroyed, no reference dropped after its loop is gone), decided on the case
+    text; a schedule the text rule (deliberately coarse: whole rounds of iterations) rejects is still accepted when the
+    implementation's trace (`blocks`) shows that no close was in flight when the server was destroyed."""
+    if not strict:
+        return None
     ops = [l.split() for l in lines if l.strip() and not l.startswith("#")]
     if not ops or ops[0][0] != "server":
         return None
@@ -499,7 +540,8 @@ def oracle(lines, blocks, err=""):
                 held[int(w[1])] = held.get(int(w[1]), 0) + 1
             elif w[0] == "drop" and held.get(int(w[1]), 0) > 0:
                 held[int(w[1])] -= 1
-        q = max(i for i, op in enumerate(o.ops) if op == "quit")
+        # judged at the very end of the case: references may be dropped after `quit`
+        q = len(o.ops) - 1
         final = o.st[q] if q < len(o.st) else None
         if final is not None:
             if final.get("srv") != "0":
@@ -590,6 +632,8 @@ def run_case(ctx, exe, lines, origin, flavour):
     ctx.count("owner:ending:" + ending)
     if out_of_usage:
         ctx.count("owner:out-of-usage")
+    if close_in_flight(lines, impl):
+        ctx.count("owner:close-in-flight-at-destroy")
     if o.inconclusive:
         ctx.count("owner:inconclusive")
         ctx.notes.append("owner: %s (%s)" % (o.inconclusive, origin))
@@ -639,7 +683,7 @@ def _flavours(ctx):
     return fl
 
 
-def explore(ctx, prop_id, budget_quick=20.0, budget_thorough=150.0, race=False):
+def explore(ctx, prop_id, budget_quick=20.0, budget_thorough=150.0, race=True):
     """corpus first, then generated cases until the effort budget (wall clock: it limits effort only, no verdict
     depends on it) is used up or ctx.stop()"""
     flavours = _flavours(ctx)
@@ -677,10 +721,10 @@ def is_owner_replay(path):
     return False
 
 
-def replay(ctx, prop_id, path):
+def replay(ctx, prop_id, path, flavours=None):
     """re-run a replay / corpus file, printing every op with what the implementation and the model answered"""
     lines, flavour = read_case_file(path)
-    for flav in ([flavour] if flavour else ["dbg", "ndebug"]):
+    for flav in (flavours or ([flavour] if flavour else ["dbg", "ndebug"])):
         exe = ctx.exe("owner_drv", flav)
         case, impl, err = run_impl(ctx, exe, lines)
         model = run_model(ctx, case, impl) if ctx.model_ok else []
@@ -705,7 +749,7 @@ def replay(ctx, prop_id, path):
 
 
 # ---------------------------------------------------------------------------------------------------
-# stand-alone: python3 -m vlib.owner_common --n 200 --seed 3 [--flavour dbg] [--race] [--repeat 3] [--show FILE]
+# stand-alone: python3 -m vlib.owner_common --n 200 --seed 3 [--flavour dbg] [--no-race] [--repeat 3] [--show FILE]
 
 def _main(argv):
     import argparse
@@ -714,8 +758,8 @@ def _main(argv):
     ap = argparse.ArgumentParser()
     ap.add_argument("--n", type=int, default=100)
     ap.add_argument("--seed", type=int, default=1)
-    ap.add_argument("--flavour", default="dbg,ndebug")
-    ap.add_argument("--race", action="store_true")
+    ap.add_argument("--flavour", default=None, help="comma separated; default dbg,ndebug (with --show: the file's own)")
+    ap.add_argument("--no-race", action="store_true", help="only schedules in which nothing is in flight when the server is destroyed")
     ap.add_argument("--repeat", type=int, default=1, help="run every case this many times and compare the outputs byte for byte")
     ap.add_argument("--show", help="replay one case file")
     ap.add_argument("--corpus", action="store_true", help="run the corpus cases first")
@@ -732,12 +776,12 @@ def _main(argv):
     if a.driver_dir:
         from . import leanside
         leanside.DRIVER_DIR = a.driver_dir
-    flavours = a.flavour.split(",")
+    flavours = (a.flavour or "dbg,ndebug").split(",")
+    if a.show:
+        replay(ctx, "C02", a.show, flavours=a.flavour.split(",") if a.flavour else None)
+        return 0
     exes = {f: build.harness("owner_drv", f) for f in flavours}
     ctx.exes = {("owner_drv", f): e for f, e in exes.items()}
-    if a.show:
-        replay(ctx, "C02", a.show)
-        return 0
     t0 = time.time()
     worst, flaky, n = 0.0, 0, 0
     todo = []
@@ -745,7 +789,7 @@ def _main(argv):
         for p in corpus_paths():
             todo.append((read_case_file(p)[0], "corpus:" + os.path.basename(p)))
     for i in range(a.n):
-        todo.append((gen_case(ctx.rng, race=a.race), "generated"))
+        todo.append((gen_case(ctx.rng, race=not a.no_race), "generated"))
     for i, (lines, origin) in enumerate(todo):
         flav = flavours[i % len(flavours)]
         t1 = time.time()
